@@ -87,6 +87,9 @@ func runC08(r *Report) {
 	c08R5(r)
 	c08R6(r)
 	c08ReadExact(r, "R6")
+	c08Serialised(r, "R6")
+	// the staging buffer is not given back to its pool while the write still uses it (shared with C16.R6)
+	bufferUseAfterGiveBack(r, "R6")
 }
 
 // storesToByteIndex: stores of constants into slice element [idx] of a make([]byte, 4) slice.
@@ -1620,4 +1623,170 @@ func c08ReadExact(r *Report, rule string) {
 		})
 	}
 	r.Sentinel(rule+".read-decrypt", n, 1)
+}
+
+// ---------- the two directions of a connection are each serialised by their mutex ----------
+
+// mutexHeldAt: on every path from the entry of in's function to in, the last Lock/Unlock of the mutex field mu is a
+// Lock (deferred unlocks run at exit and do not count).
+func mutexHeldAt(in ssa.Instruction, mu *types.Var) bool {
+	f := in.Parent()
+	op := func(i ssa.Instruction) int { // +1 lock, -1 unlock, 0 other
+		c, ok := i.(*ssa.Call)
+		if !ok || c.Call.IsInvoke() || len(c.Call.Args) == 0 {
+			return 0
+		}
+		o := calleeObj(c)
+		if o == nil || o.Pkg() == nil || o.Pkg().Path() != "sync" {
+			return 0
+		}
+		fa, okf := c.Call.Args[0].(*ssa.FieldAddr)
+		if !okf || fieldVar(fa) != mu {
+			return 0
+		}
+		switch o.Name() {
+		case "Lock", "RLock":
+			return 1
+		case "Unlock", "RUnlock":
+			return -1
+		}
+		return 0
+	}
+	out := map[*ssa.BasicBlock]bool{}
+	known := map[*ssa.BasicBlock]bool{}
+	transfer := func(b *ssa.BasicBlock, held bool, upto ssa.Instruction) bool {
+		for _, i := range b.Instrs {
+			if i == upto {
+				break
+			}
+			switch op(i) {
+			case 1:
+				held = true
+			case -1:
+				held = false
+			}
+		}
+		return held
+	}
+	inState := func(b *ssa.BasicBlock) bool {
+		if len(b.Preds) == 0 {
+			return false
+		}
+		held := true
+		for _, p := range b.Preds {
+			if known[p] && !out[p] {
+				held = false
+			}
+		}
+		return held
+	}
+	for iter := 0; iter < 20; iter++ {
+		changed := false
+		for _, b := range f.Blocks {
+			h := transfer(b, inState(b), nil)
+			if !known[b] || out[b] != h {
+				known[b], out[b] = true, h
+				changed = true
+			}
+		}
+		if !changed {
+			break
+		}
+	}
+	return transfer(in.Block(), inState(in.Block()), in)
+}
+
+// c08Serialised: everything that advances a keystream and the transfer it belongs to happen in one hold of the
+// direction's mutex: in Conn.Write (and its private helpers) the encryption and the underlying Write, in Conn.Read the
+// underlying Read and the decryption. Two writers that encrypt under the lock but write outside it put their
+// ciphertexts on the wire in another order than they were encrypted in; a reader that reads outside the lock decrypts
+// its bytes with the keystream position of another reader.
+func c08Serialised(r *Report, rule string) {
+	p := r.P
+	cn := p.Named("crypto", "Conn")
+	if !r.Anchor(rule, "crypto.Conn", cn != nil) {
+		return
+	}
+	var mus []*types.Var
+	if st, ok := cn.Underlying().(*types.Struct); ok {
+		for i := 0; i < st.NumFields(); i++ {
+			if typeIs(st.Field(i).Type(), "sync", "Mutex") || typeIs(st.Field(i).Type(), "sync", "RWMutex") {
+				mus = append(mus, st.Field(i))
+			}
+		}
+	}
+	var heldIP func(in ssa.Instruction, mu *types.Var, d int) bool
+	heldIP = func(in ssa.Instruction, mu *types.Var, d int) bool {
+		if mutexHeldAt(in, mu) {
+			return true
+		}
+		f := in.Parent()
+		obj, isFn := f.Object().(*types.Func)
+		if d > 2 || f.Parent() != nil || !isFn || obj.Exported() {
+			return false
+		}
+		calls, esc := p.callSitesOf(f)
+		if len(esc) > 0 || len(calls) == 0 {
+			return false
+		}
+		for _, cs := range calls {
+			ci, ok := cs.(*ssa.Call)
+			if !ok || !heldIP(ci, mu, d+1) {
+				return false
+			}
+		}
+		return true
+	}
+	for _, dir := range []struct{ fn, method, what string }{{"Conn.Write", "Write", "write"}, {"Conn.Read", "Read", "read"}} {
+		root := p.Func("crypto", dir.fn)
+		if !r.Anchor(rule, "crypto.(*Conn)."+dir.method, root != nil) {
+			continue
+		}
+		var ops []ssa.Instruction
+		for _, f := range p.SrcFuncs() {
+			if relPkg(f) != "crypto" || f.Parent() != nil || !(f == root || p.inUnitOf(f, root)) {
+				continue
+			}
+			r.Fn(f)
+			allInstrs(f, func(in ssa.Instruction) {
+				c, ok := in.(*ssa.Call)
+				if !ok {
+					return
+				}
+				if isStdCall(c, "crypto/rc4", "Cipher", "XORKeyStream") || (c.Call.IsInvoke() && c.Call.Method.Name() == dir.method && typeIs(c.Call.Value.Type(), "net", "Conn")) {
+					ops = append(ops, in)
+				}
+			})
+		}
+		var good *types.Var
+		for _, mu := range mus {
+			all := len(ops) > 0
+			for _, o := range ops {
+				if !heldIP(o, mu, 0) {
+					all = false
+				}
+			}
+			if all {
+				good = mu
+			}
+		}
+		pos := root.Pos()
+		msg := ""
+		if good == nil {
+			for _, o := range ops {
+				ok := false
+				for _, mu := range mus {
+					if heldIP(o, mu, 0) {
+						ok = true
+					}
+				}
+				if !ok {
+					pos = o.Pos()
+					break
+				}
+			}
+			msg = fmt.Sprintf("the %s direction of crypto.Conn is not serialised: not every cipher step and underlying %s of Conn.%s happens while one and the same mutex of the connection is held (e.g. %s): concurrent callers interleave keystream positions and bytes on the wire, and the stream the other side decrypts is garbage from that point on", dir.what, dir.method, dir.method, p.Fset.Position(pos))
+		}
+		r.Check(good != nil, rule, "Conn."+dir.method+"/cipher-and-transfer-in-one-lock-hold", pos, fmt.Sprintf("%d cipher/transfer steps, all under one mutex", len(ops)), msg)
+	}
 }
